@@ -201,7 +201,7 @@ class Ctx:
             return []
         src = re.sub(r"\(\*.*?\*\)", "", src, flags=re.S)
         out = []
-        for m in re.finditer(r"From\s+RV\s+Require\s+(?:Import|Export)\s+([^.]*(?:\.[A-Za-z_][\w.]*)*)\s*\.", src):
+        for m in re.finditer(r"From\s+RV\s+Require\s+(?:Import|Export)\s+(.*?)\.(?=\s|$)", src, re.S):
             for mod in m.group(1).split():
                 p = mod.replace('.', '/') + '.v'
                 if os.path.exists(os.path.join(COQ, p)) and p not in out:
